@@ -371,10 +371,14 @@ func c06Levels(tier string) []core.Level {
 				emit(core.Case{Fam: "indirect", N: []int{i}})
 			}
 		}},
-		{Name: "size: four loop / branch constructs after n = 0..1500 simple prints in three token alignments", Gen: func(emit func(core.Case)) {
+		{Name: "size: four loop / branch constructs after n = 0..1500 (thorough 0..6000) simple prints in three token alignments", Gen: func(emit func(core.Case)) {
+			top := 1500
+			if thorough(tier) {
+				top = 6000
+			}
 			for which := 0; which < 4; which++ {
 				for lead := 0; lead < 3; lead++ {
-					for n := 0; n <= 1500; n++ {
+					for n := 0; n <= top; n++ {
 						if which > 0 && n < 300 {
 							continue
 						}
